@@ -207,6 +207,23 @@ def source_order(ctx):
                         '_last_label is not the canonical name of the label '
                         '(RESTORE looks parts up by canonical target)',
                         f.file, f.line)
+    # who may write _last_label: the label handlers (and __init__)
+    for f in repo.all_functions():
+        if f.module.name != 'qbee.compiler':
+            continue
+        for s_ in walk_shallow(f.node):
+            if isinstance(s_, ast.Assign) and any(
+                    dotted(t) == 'self._last_label' for t in s_.targets):
+                c2 = f'{f.file}:{f.qualname}:writes-_last_label'
+                ctx.instance(rule, c2)
+                if f.qualname not in ('Pass1.__init__',
+                                      'Pass1.process_label_pre',
+                                      'Pass1.process_lineno_pre'):
+                    ctx.finding(rule, c2,
+                                f'{f.qualname} changes the label DATA is '
+                                f'grouped under: DATA items after that point '
+                                f'join another group and are read out of '
+                                f'source order', f.file, s_.lineno)
     cu = repo.func('qbee.compiler', 'CompilationUnit.__init__')
     ok = 'self.data = defaultdict(list)' in unparse(cu.node)
     ctx.instance(rule, f'{cu.file}:CompilationUnit.__init__:data')
@@ -256,6 +273,57 @@ def source_order(ctx):
                     pd.file, pd.line)
 
 
+def quoted_verbatim(ctx):
+    repo = ctx.repo
+    rule = 'C15.quoted-items-kept-verbatim'
+    ctx.rule(rule, 'in parse_data a strip()ped item is appended only on '
+             'paths whose state is READING_UNQUOTED; quoted items are '
+             'appended verbatim')
+    f = repo.func('qbee.utils', 'parse_data')
+    cfg = build_cfg(f.node, repo_noreturn)
+    n = 0
+    for x in cfg.nodes:
+        if x.kind != 'stmt':
+            continue
+        for c in ast.walk(x.ast):
+            if isinstance(c, ast.Call) and isinstance(c.func, ast.Attribute)\
+                    and c.func.attr == 'append' and c.args and \
+                    isinstance(c.args[0], ast.Call) and \
+                    isinstance(c.args[0].func, ast.Attribute) and \
+                    c.args[0].func.attr == 'strip':
+                n += 1
+                conds = [(t.ast.test, lab) for t, lab in cfg.conditions(x)
+                         if t.kind == 'test']
+                ok = any(lab == 'true' and isinstance(t, ast.Compare) and
+                         isinstance(t.ops[0], ast.Eq) and
+                         unparse(t.comparators[0]) == 'READING_UNQUOTED'
+                         for t, lab in conds)
+                construct = f'{f.file}:parse_data:strip@{_ord(f.node, c)}'
+                ctx.instance(rule, construct, sample={
+                    'conds': [(unparse(t), lab) for t, lab in conds]})
+                if not ok:
+                    ctx.finding(rule, construct,
+                                'parse_data appends a strip()ped item on a '
+                                'path that is not restricted to the '
+                                'READING_UNQUOTED state: a quoted item can '
+                                'lose its blanks', f.file, c.lineno)
+    ctx.floor('strip() append sites in parse_data', n, 2)
+
+
+def _ord(fn, node):
+    k = 0
+    for c in ast.walk(fn):
+        if isinstance(c, ast.Call) and isinstance(c.func, ast.Attribute) \
+                and c.func.attr == 'append' and c.args and \
+                isinstance(c.args[0], ast.Call) and \
+                isinstance(c.args[0].func, ast.Attribute) and \
+                c.args[0].func.attr == 'strip':
+            k += 1
+            if c is node:
+                return k
+    return 0
+
+
 def run(ctx):
     ctx.clauses = [
         'type-id protocol between gen_read_stmt and _exec_read',
@@ -272,6 +340,7 @@ def run(ctx):
     restore_operand(ctx)
     read_cursor(ctx, r)
     source_order(ctx)
+    quoted_verbatim(ctx)
     return ('Protocol agreement between gen_read_stmt/gen_restore_stmt and '
             'DataDevice (type ids, operand types, emission order), '
             'non-negativity of every RESTORE operand the generator can '
